@@ -693,6 +693,11 @@ func (c *Compiler) fork(
 	if modulePath == c.modulePath {
 		child.indent = c.indent
 	}
+	if file == c.file {
+		// a function literal inside an implicitly repeated const expression
+		// is compiled once per member as well.
+		child.sharedExpr = c.sharedExpr
+	}
 	return child
 }
 
